@@ -64,17 +64,21 @@ PROPS = {
                 partial=["termination of Close is a liveness property under a fair scheduler: the model theorems give the safety half (no send on the closed event channel, everything ended when it is closed, no dispatch after the loop); that Close returns within a bound is observed on real runs, not proved"]),
     "C13": dict(lean=["Mav.Props.C13"], groups=[("C13", sizes(30, 1500))],
                 trusted=["Go channel/select/goroutine semantics as modelled by Mav/Model/Node.lean"]),
-    "C14": dict(lean=["Mav.Props.C14"], groups=[("C14", sizes(30, 400))],
+    "C14": dict(lean=["Mav.Props.C14"], groups=[("C14", sizes(30, 400))], confirm=["lifecheck ", "tnc "],
                 crash_signatures=[("crash:pion-udp-waitgroup", r"sync: (WaitGroup is reused|WaitGroup misuse|negative WaitGroup).*pion/transport/v2/udp")],
                 trusted=["the environment of a client-type endpoint is a script of connection-attempt outcomes and channel deaths (Mav/Model/Provider.lean); time is observed in units of the reconnect period (200 ms, set through the hook) with a tolerance of 0.42 period",
                          "kernel TCP/UDP loopback behaviour (refused connections, RST on SO_LINGER 0, deadlines) as observed"],
                 partial=["idle expiry and deadlines: the theorems are about the read-loop and wrapper models; on real runs silent peers must be closed with a timeout cause and busy peers must stay open (server and client scenarios), and the deadlines handed to a recording net.Conn must be call time + timeout"]),
     "C15": dict(lean=["Mav.Props.C15"], groups=[("C15", sizes(30, 600))], race=True,
+                spec_domain=lambda op: op.startswith("racecheck "),   # the scenarios' own verdicts belong to C10-C16 (and are slower under the detector)
+                classify=lambda op, impl, spec: ("race:pion-udp-waitgroup" if op.startswith("racecheck ") and
+                                                 "pion/transport/v2/udp.(*listener).Accept|" in op and
+                                                 "pion/transport/v2/udp.(*ListenConfig).Listen.func1" in op else None),
                 crash_signatures=[("crash:pion-udp-waitgroup", r"sync: (WaitGroup is reused|WaitGroup misuse|negative WaitGroup).*pion/transport/v2/udp")],
                 trusted=["the Go race detector (ThreadSanitizer happens-before instrumentation) reports every conflicting unsynchronised access pair it observes on the schedules that actually ran; schedules that did not run are covered by the discipline theorems only",
                          "go/ast extraction of field accesses and lock regions (tools/extract/access.go)"],
                 partial=["race freedom is proved for the model of the synchronisation discipline (confinement / lock / read-only after publication) and the discipline is checked against access facts regenerated from the source; the absence of races in the compiled program is observed under the race detector, not proved"]),
-    "C16": dict(lean=["Mav.Props.C16"], groups=[("C16", sizes(45, 900))],
+    "C16": dict(lean=["Mav.Props.C16"], groups=[("C16", sizes(45, 900))], confirm=["hbcheck ", "srcheck "],
                 trusted=["reflection (FieldByName / SetUint) as observed; the fields set by reflection are regenerated from the source text (Gen.heartbeatFields, Gen.streamRequestFields) and compared by theorem",
                          "heartbeat spacing is observed (12.5 periods of 40-80 ms: count within [8,13], mean gap within [0.8,1.3] periods, no gap below 0.1 period), not proved"],
                 partial=["the 30 s rule is exercised for real only in the thorough tier (one 31 s scenario); in the quick tier it rests on the theorem, the regenerated constant Gen.streamRequestPeriodNs and the source pins"]),
